@@ -1,4 +1,5 @@
 //vp:target x/liquidity/keeper/zz_vp_c07.go
+//vp:props C07 C04
 //vp:load ./app
 //go:build verif
 
@@ -98,6 +99,11 @@ func vpC07Finish(mm bool) {
 
 func VP_C07_FinishOrder()   { vpC07Finish(false) }
 func VP_C07_FinishMMOrder() { vpC07Finish(true) }
+
+// C04 (pair escrow backs the live orders): the same step seen from the escrow's side - ending an order takes exactly
+// its remaining offer coin (plus its fee reserve) out of the pair escrow, never coins that back other orders.
+func VP_C04_FinishOrderTakesOnlyItsOwnEscrow()   { vpC07Finish(false) }
+func VP_C04_FinishMMOrderTakesOnlyItsOwnEscrow() { vpC07Finish(true) }
 
 // C07: an order that is not in its placement batch can always be cancelled by its owner (given that its escrow is
 // funded, which is C04's invariant), and afterwards it is Cancelled.
